@@ -180,6 +180,13 @@ def r2_visitors(ctx):
         okm = okm and apps == ([f'self.metacomments.append({nd}.token)'] if isit and ats else ([] if ats else apps))
         if not ats:
             okm = False
+    # the comment visitor selects by CLASS: nothing else the importer builds may be an instance of that class
+    mc_ = ctx.prog.cls(f'{N.TOKENS}.MetacommentToken')
+    subs_ = [c_ for c_ in ctx.prog.subclasses(mc_, strict=True)]
+    ctx.check(not subs_, 'R2', mc_.loc, mc_.qualname, 'comment-class-has-subclasses',
+              'MetacommentToken has no subclass: isinstance(token, MetacommentToken) selects the global comments only',
+              f'{[c_.name for c_ in subs_]} derive from MetacommentToken: the comment visitor (isinstance test) also returns those tokens - local '
+              f'`!` comments of the spines are listed among the global `!!` lines' if subs_ else '')
     ctx.check(okm, 'R2', mv.loc, mv.qualname, 'metacomments-visitor', 'MetacommentsTraversal.visit lists a token iff it is a MetacommentToken')
 
 
